@@ -5,7 +5,7 @@
    (Gen/GridRcbGen.v): TOLERANCE, the least chunk count, the least chunk size,
    the starting axes. *)
 From Coupe Require Import Lib.Prelude Lib.SFloat Model.GridRcb Gen.GridRcbGen Run.RunC10
-  Proofs.GridRcbMedian Proofs.GridRcbTree Proofs.GridRcbChecker Proofs.GridRcbThresholds
+  Proofs.GridRcbMedian Proofs.GridRcbTree Proofs.GridRcbChecker Proofs.GridRcbWitness Proofs.GridRcbFloat
   Proofs.GridRcbMain.
 Open Scope Z_scope.
 
@@ -79,10 +79,22 @@ Theorem C10_gridrcb_boxes : forall fuel T fw ds ws k,
 Proof. exact (gridrcb_boxes cfg_impl C10_literals). Qed.
 Print Assumptions C10_gridrcb_boxes.
 
-(* the threshold facts, by evaluation for every total below 4096 *)
-Theorem C10_thresholds_small : forall fw t, 0 <= t < 4096 -> thr_ok_b fw tol t = true.
-Proof. exact thr_ok_small. Qed.
-Print Assumptions C10_thresholds_small.
+(* the threshold facts hold for every total weight below 2^46 (proved with
+   Flocq from the IEEE-754 meaning of the operations; classical-reals axioms) *)
+Theorem C10_thresholds : forall fw t, 0 <= t < 2 ^ 46 -> thr_ok_b fw tol t = true.
+Proof. exact thr_ok_flocq. Qed.
+Print Assumptions C10_thresholds.
+
+(* ... hence, unconditionally for total weights below 2^46: *)
+Theorem C10_gridrcb_boxes_all : forall fuel T fw ds ws k,
+  wf_grid ds ws -> Forall (fun s => (1 <= s)%nat) ds -> Forall (fun w => 0 <= w) ws ->
+  sumZ ws < 2 ^ 46 ->
+  Forall (fun s => (s < 2 ^ fuel)%nat) ds ->
+  exists ids, gridrcb_impl fuel T fw ds ws k (glen ds) = Ok ids
+              /\ C10_spec bal_strong (start_of cfg_impl ds) ds ws k ids
+              /\ C10_spec bal_prop (start_of cfg_impl ds) ds ws k ids.
+Proof. exact (gridrcb_boxes_all cfg_impl C10_literals eq_refl). Qed.
+Print Assumptions C10_gridrcb_boxes_all.
 
 (* ---- the checker run on the implementation's outputs is sound for the property ---- *)
 Theorem C10_checker_sound : forall s ds ws k ids,
@@ -97,7 +109,7 @@ Example C10_nonvacuous_run :
 Proof. vm_compute. reflexivity. Qed.
 Example C10_nonvacuous_hyps :
   wf_grid [4; 4]%nat (repeat 1 16) /\ Forall (fun s => (1 <= s)%nat) [4; 4]%nat
-  /\ Forall (fun w => 0 <= w) (repeat 1 16) /\ sumZ (repeat 1 16) < 4096
+  /\ Forall (fun w => 0 <= w) (repeat 1 16) /\ sumZ (repeat 1 16) < 2 ^ 46
   /\ Forall (fun s => (s < 2 ^ 3)%nat) [4; 4]%nat.
 Proof.
   split; [split; [left; reflexivity|reflexivity]|]. split; [repeat constructor|].
